@@ -185,9 +185,10 @@ import vh_c15 as c15
 @condition(timeout={"quick": 400, "thorough": 900}, bounds={"quick": {"N": 1}, "thorough": {"N": 2}},
            functions=["TaskDispatcher.execute_task > asl_service_states_startExecution (child execution ARN minted from the child state machine's ARN, not from the Task Resource ARN)"],
            outside=["accounts other than the pool"])
-def child_mint(form: int, rr: int, cr: int, m: str, named: bool, ca: int) -> bool:
+def child_mint(form: int, rr: int, cr: int, m: str, named: bool, ca: int, ni: int) -> bool:
     """
     requires: 0 <= form < 5 and 0 <= rr < 3 and 0 <= cr < 2 and 0 <= ca < 2 and 1 <= len(m) <= @N@ and all(c in ALPHA for c in m)
+    requires: 0 <= ni < 7 and (named or ni == 0) and (ni == 0 or (rr == 1 and ca == 0))
     ensures: _
     """
     # The Task's Resource ARN may carry no region (the AWS form arn:aws:states:::states:startExecution.sync), the
@@ -209,19 +210,25 @@ def child_mint(form: int, rr: int, cr: int, m: str, named: bool, ca: int) -> boo
     rregion = pick(["", "local", "us-east-1"], rr)
     res = ("arn:aws:states:%s::aws-sdk:" if form == 4 else "arn:aws:states:%s::states:") % rregion + f
     params = {"Input": {"i": 1}, "StateMachineArn": carn}
+    cname = pick(["given", "2024-01-01T00:00:00Z", "a/b", "a b", "", "x" * 81, "ok-name_1.2"], ni) if named else None
     if named:
-        params["Name"] = "given"
+        params["Name"] = cname
     ctx = {"StateMachine": {"Id": c15.SM}, "Execution": {"Id": stubs.EX_ARN}, "State": {"Name": "T"}, "Tracer": {}}
     import asl_workflow_engine.event_dispatcher as edm
     from vf import sim
     edm.Message = sim.Message
     d.execute_task(res, params, results.append, 5000, True, ctx, "ev1", False)
     pubs = [l for l in log if l[0] == "publish"]
+    if named and not ra.valid_name(cname):
+        # a child execution name that would break the round trip is refused: the Task fails, nothing is launched
+        return not pubs and len(results) == 1 and isinstance(results[0], dict) and bool(results[0].get("errorType")) and not d.pending_requests
     if len(pubs) != 1:
         return False
     ev = pubs[0][1]
     ex = ev["context"]["Execution"]["Id"]
     if ev["context"]["StateMachine"]["Id"] != carn:
+        return False
+    if named and ex.rpartition(":")[2] != cname:
         return False
     # every derivation site splits the execution ARN like this and must arrive at the machine that runs it
     split = ex.rpartition(":")
